@@ -84,6 +84,20 @@ func c05MoveCfgs(thorough bool) []placeCfg {
 			noRelieve: []bool{false},
 		},
 	}
+	// a tail shard that can really be drained for scale-down (its small target fits next to the other one)
+	cfgs = append(cfgs, placeCfg{
+		nShards:   2,
+		sizes:     [][2]int64{{40, 40}, {10, 10}},
+		copyOpts:  []copyOpt{coAbsent, coN5, coN3, coN2, coT5},
+		extras:    [][]int64{{0, 0}},
+		disc0:     []bool{true},
+		lastClass: []int{shInSync},
+		heads:     []int64{0, 100},
+		idles:     []int64{3600},
+		newTgt:    []int{0},
+		postFail:  []int{-1},
+		noRelieve: []bool{false},
+	})
 	if thorough {
 		cfgs = append(cfgs, placeCfg{
 			nShards:   3,
@@ -153,6 +167,29 @@ func c05Oracle(sc *h1.Scenario, o *h1.Obs) []Finding {
 						if !ok {
 							fs = append(fs, Finding{Clause: "move-start", Sig: "C05:start-without-destination",
 								Detail: fmt.Sprintf("shard %d: target %d flipped to in_transfer but no other in-sync shard holds or was sent a normal copy", si, h)})
+						}
+					}
+					// (a3) a normal copy is taken away in the very cycle in which another shard is given the target for
+					// the first time: a move without any hand-over (the destination has not scraped it once)
+					if st.State == "" && !inBody && disc[h] {
+						reportedElsewhere, sentElsewhere := false, -1
+						for di := range rep.Shards {
+							d := &rep.Shards[di]
+							if di == si || !d.InSync() {
+								continue
+							}
+							if _, had := d.Status[h]; had {
+								reportedElsewhere = true
+							}
+							if dp := h1.TargetsPost(ro.Reqs[di]); dp != nil {
+								if _, in := h1.Posted(dp)[h]; in {
+									sentElsewhere = di
+								}
+							}
+						}
+						if !reportedElsewhere && sentElsewhere >= 0 {
+							fs = append(fs, Finding{Clause: "move-start", Sig: "C05:moved-without-hand-over",
+								Detail: fmt.Sprintf("shard %d reported target %d in normal state and loses it in the cycle that gives it to shard %d for the first time", si, h, sentElsewhere)})
 						}
 					}
 					// (a2) the source copy of a pending move is dropped
